@@ -1349,6 +1349,7 @@ class NonzeroFacts:
         c.assume_forall(name + ".pos", lambda t: z3.Implies(z3.And(0 <= t, t < cnt),
                         z3.And(0 <= pos(t), pos(t) < n_, mask_f(pos(t)), rk(pos(t)) == t)))
         c.assume_forall(name + ".posmono", lambda t: z3.Implies(z3.And(0 <= t, t + 1 < cnt), pos(t) < pos(t + 1)))
+        c.assume_forall(name + ".posmono2", lambda s_, t: z3.Implies(z3.And(0 <= s_, s_ < t, t < cnt), pos(s_) < pos(t)), arity=2)
         c.assume_forall(name + ".rk", lambda i: z3.Implies(z3.And(0 <= i, i < n_),
                         z3.And(rk(i + 1) == rk(i) + z3.If(mask_f(i), 1, 0), rk(i) >= 0, rk(i) <= i,
                                z3.Implies(mask_f(i), z3.And(rk(i) < cnt, pos(rk(i)) == i)))))
